@@ -334,10 +334,14 @@ class Stream(StreamIterator[_RecvType], Generic[_SendType, _RecvType]):
                 if self._status_details_codec is not None:
                     details_bin = headers_map.get(_STATUS_DETAILS_KEY)
                     if details_bin is not None:
-                        details = self._status_details_codec.decode(
-                            status, message,
-                            decode_bin_value(details_bin.encode('ascii'))
-                        )
+                        try:
+                            details = self._status_details_codec.decode(
+                                status, message,
+                                decode_bin_value(details_bin.encode('ascii'))
+                            )
+                        except Exception:
+                            # malformed details must not hide the status
+                            details = None
         return status, message, details
 
     def _raise_for_grpc_status(
